@@ -572,3 +572,45 @@ VERSION_FMT_LOOPS = [
     "$I == $IT.index@, self.pre_release@.len() <= usize::MAX, fmt_out(*f) == out0 + core + ids_text(self.pre_release@, $I as int, '-'), \".\"@ == ch1('.'), \"-\"@ == ch1('-'), \"+\"@ == ch1('+'), \"\"@ == Seq::<char>::empty(),",
     "$I == $IT.index@, self.build@.len() <= usize::MAX, fmt_out(*f) == out0 + core + ids_text(self.pre_release@, self.pre_release@.len() as int, '-') + ids_text(self.build@, $I as int, '+'), \".\"@ == ch1('.'), \"-\"@ == ch1('-'), \"+\"@ == ch1('+'), \"\"@ == Seq::<char>::empty(),",
 ]
+
+
+# ====================================================================================================================================
+# Text shell, range grammar, leaves (src/range.rs): operators, x-ranges, components, partial versions, `~>`, `||`
+def _lits2(*ps):
+    return 'proof { ' + ' '.join('reveal_strlit("%s%s"); assert("%s%s"@ =~= ch2(\'%s\', \'%s\')); lemma_prefix2(\'%s\', \'%s\');' % (a, b, a, b, a, b, a, b) for (a, b) in ps) + ' }\n    '
+
+
+RGRAMMAR = {
+    'x_or_asterisk': dict(
+        src='rng', O='()', acc='g_xr(i@) == Some(rest@)', rej='g_xr(i@) is None',
+        rewrites=[("|_| ()", "|_x: &'s str| -> (r: ()) { () }", 'R2 `_` closure parameter named')],
+        entry=_lits('x', 'X', '*')),
+    'component': dict(
+        src='rng', O='Option<u64>', acc='g_component(i@) matches Some((c, r)) && opt_num_is(o, c) && r == rest@', rej='g_component(i@) is None',
+        rewrites=[("Parser::map(x_or_asterisk, |_| None)", "Parser::map(x_or_asterisk, |_x: ()| -> (r: Option<u64>) ensures r is None { None })", 'R2 `_` closure parameter named, contract'),
+                  ("Parser::map(number, Some)", "Parser::map(number, |n: u64| -> (r: Option<u64>) ensures r == Some(n) { Some(n) })", 'R12 constructor eta-expanded')],
+        entry=''),
+    'operation': dict(
+        src='rng', O='Operation', acc='g_operation(i@) == Some((o, rest@))', rej='g_operation(i@) is None',
+        rewrites=[("|_| GreaterThanEquals", "|_x: &'s str| -> (r: Operation) ensures r == Operation::GreaterThanEquals { GreaterThanEquals }", 'R2, contract'),
+                  ("|_| GreaterThan)", "|_x: &'s str| -> (r: Operation) ensures r == Operation::GreaterThan { GreaterThan })", 'R2, contract'),
+                  ("|_| Exact", "|_x: &'s str| -> (r: Operation) ensures r == Operation::Exact { Exact }", 'R2, contract'),
+                  ("|_| LessThanEquals", "|_x: &'s str| -> (r: Operation) ensures r == Operation::LessThanEquals { LessThanEquals }", 'R2, contract'),
+                  ("|_| LessThan)", "|_x: &'s str| -> (r: Operation) ensures r == Operation::LessThan { LessThan })", 'R2, contract')],
+        entry=_lits('>', '=', '<') + _lits2(('>', '='), ('<', '='))),
+    'tilde_gt': dict(
+        src='rng', O="Option<&'s str>", acc='g_tilde_gt(i@) == Some((o is Some, rest@))', rej='g_tilde_gt(i@) is None',
+        rewrites=[("|(_, _, gt, _)| gt", "|arg: (&'s str, &'s str, Option<&'s str>, &'s str)| -> (r: Option<&'s str>) ensures r == arg.2 { let (_, _, gt, _) = arg; gt }", 'R2 closure pattern parameter bound by `let`')],
+        entry=_lits('~', '>')),
+    'logical_or': dict(
+        src='rng', O='()', acc='g_or(i@) == Some(rest@)', rej='g_or(i@) is None',
+        rewrites=[("|_| ()", "|_x: &'s str| -> (r: ()) { () }", 'R2 `_` closure parameter named')],
+        entry=_lits2(('|', '|'))),
+    'partial_version': dict(
+        src='rng', O='Partial', acc='g_partial(i@) matches Some((ps, r)) && partial_is(o, ps) && r == rest@ && wf_partial(o)', rej='g_partial(i@) is None',
+        rewrites=[], entry=_lits('v', '.')),
+}
+RGRAMMAR_ORDER = ['x_or_asterisk', 'component', 'operation', 'tilde_gt', 'logical_or', 'partial_version']
+for _n in RGRAMMAR_ORDER:
+    GRAMMAR[_n] = RGRAMMAR[_n]
+GRAMMAR_ORDER = GRAMMAR_ORDER + RGRAMMAR_ORDER
